@@ -353,6 +353,9 @@ fn families(tier: &str) -> Vec<(&'static str, Vec<Vec<Sib>>)> {
         vec![ParamIdx(Some("1"), Some("/d/z"), None), ParamIdx(Some("1"), Some("/d/a2"), None), ParamIdx(None, Some("/d/a10"), None), ParamIdx(None, None, None)],
         vec![ParamIdx(None, Some("/d/z"), None), ParamIdx(None, Some("/d/a"), None), ParamIdx(None, Some("/d/a"), None)],
         vec![ParamIdx(Some("0x10"), Some("/d/a"), Some("s2")), ParamIdx(Some("16"), Some("/d/a"), Some("s1")), ParamIdx(Some("020"), Some("/d/a"), None), ParamIdx(Some("7"), Some("/d/a"), Some("s1"))],
+        // siblings that differ in nothing but an attribute: the last stage of Element::cmp decides
+        vec![ParamIdx(Some("7"), Some("/d/a"), Some("s2")), ParamIdx(Some("7"), Some("/d/a"), Some("s1")), ParamIdx(Some("7"), Some("/d/a"), None)],
+        vec![ParamIdx(None, None, Some("b")), ParamIdx(None, None, Some("a")), ParamIdx(None, None, Some("a")), ParamIdx(None, None, Some("ab"))],
     ]));
     v.push(("axis", vec![
         vec![Axis(0x4000000000000000), Axis(0x7ff8000000000000), Axis(0x3ff0000000000000)],
@@ -366,7 +369,7 @@ fn families(tier: &str) -> Vec<(&'static str, Vec<Vec<Sib>>)> {
     v.push(("mixed", vec![vec![Inline("TT"), Inline("E"), Inline("SUB")]]));
     v.push(("verorder", vec![vec![AppEntry("2"), AppEntry("1")]]));
     if thorough {
-        v.push(("bag", vec![vec![Elem("SYSTEM-SIGNAL", "a2"), Elem("I-SIGNAL", "a10"), Elem("SYSTEM-SIGNAL", "a1b"), Elem("UNIT", "a2x"), Elem("I-SIGNAL", "a1b")]]));
+        v.push(("bag", vec![vec![Elem("SYSTEM-SIGNAL", "a2"), Elem("I-SIGNAL", "a10"), Elem("SYSTEM-SIGNAL", "a1b"), Elem("UNIT", "a2x"), Elem("I-SIGNAL", "a01")]]));
         v.push(("index", vec![vec![Ecuc("Aaa", Some("06"), Some("/d/c")), Ecuc("Bbb", Some("5"), Some("/d/c")), Ecuc("Ccc", Some("0X4"), Some("/d/c")), Ecuc("Zzz", None, Some("/d/c")), Ecuc("Mmm_9", None, Some("/d/c")), Ecuc("Mmm_10", None, Some("/d/c"))]]));
     }
     v
